@@ -38,6 +38,8 @@ pub struct MNode {
     pub cutoff_set: bool,
     /// some cutoff this node has had could suppress unequal values
     pub had_noneq_cutoff: bool,
+    /// every round since the last definite change in which the node may have changed (R2)
+    pub maybe_history: Vec<u32>,
     pub value: Option<MV>,
     pub last_run: Option<u32>,
     pub last_changed: Option<u32>,
